@@ -29,4 +29,12 @@ theorem kind_willRead_guards :
       [("Stream.Kind", "f > c"), ("Stream.Kind", "v < c"), ("Stream.Kind", "v > v"), ("Stream.Kind", "v > (v - v)"),
        ("Stream.willRead", "f > c"), ("Stream.willRead", "v > (v - v)"), ("Stream.willRead", "v > v")] := by decide
 
+/-- Pool discipline of encode.go: `Encode` and `EncodeToBytes` take one buffer and give it back with a
+    deferred `Put`; `EncodeToReader` takes one and must NOT give it back (the returned reader streams
+    from it); the reader's `Read` gives it back, not deferred (only on its EOF path). A `Put` added to
+    `EncodeToReader`, a missing `Put`, or a new user of the pool breaks this obligation. -/
+theorem pool_discipline :
+    poolUse = [("Encode", 1, 1, 1), ("EncodeToBytes", 1, 1, 1), ("EncodeToReader", 1, 0, 0), ("encReader.Read", 0, 1, 0)] := by
+  decide
+
 end Rangers.Props.C08
